@@ -142,6 +142,7 @@ func genMarker(r *rand.Rand, depth int) string {
 type genOpts struct {
 	friendly               bool
 	route, late            bool
+	leak                   bool
 	nPkg, maxVers, maxReqs int
 	markers, extras        int // percent of requirements
 	gadget                 bool
@@ -266,6 +267,9 @@ func genUniverse(r *rand.Rand, o genOpts) *uni {
 			pkg{Name: "rx", Vers: []ver{{V: "1.0", Reqs: []req{{Pkg: "ry"}}}}},
 			pkg{Name: "ry", Vers: []ver{{V: "1.0", Reqs: []req{{Pkg: "rx"}, {Pkg: "rb", Spec: pick(r, "<2.0", "==1.0", "!=2.0")}}}}})
 	}
+	if o.leak {
+		addLeakGadget(r, u)
+	}
 	if o.late {
 		// F-C08-extras shape: la is pinned without extras, then lb asks for la[x]
 		a := anchor()
@@ -277,6 +281,81 @@ func genUniverse(r *rand.Rand, o genOpts) *uni {
 	}
 	u.normalise()
 	return u
+}
+
+// addLeakGadget grafts the "extras of a rejected candidate" shape: the root qroot asks
+// for qa and for qx[e1]; newer versions of qa ask for qx[e2] (which merges fine) and
+// are then rejected -- while being tried (a later requirement has no candidate or
+// conflicts with a pin) or one/two pins later (backtracking discards the states) --
+// so that an older qa is selected. qx guards qz by extra == e2 and qw by extra == e1:
+// nothing selected requests qx[e2], so qz must not appear. Only snapshots that are
+// really immutable keep e2 out of qx's live criterion.
+func addLeakGadget(r *rand.Rand, u *uni) {
+	exs := [][2]string{{"bar", "foo"}, {"x", "y"}, {"y", "X"}, {"foo", "x"}}[r.Intn(4)]
+	e1, e2 := exs[0], exs[1]
+	marker := func(e string) string {
+		return pick(r, `extra == "`+e+`"`, `"`+e+`" == extra`, `extra == "`+e+`" and os_name == "posix"`, `extra == '`+e+`'`)
+	}
+	nA := 2 + r.Intn(3) // versions of qa; the newest nBad are rejected
+	nBad := 1 + r.Intn(nA-1)
+	mode := r.Intn(4)                          // 0 missing version, 1 conflicting pin, 2 one level of backtracking, 3 two levels
+	xSpec := pick(r, "", "", ">=1.0", "==1.0") // changes whether qx is pinned before qa
+	rootReqs := []req{{Pkg: "qa"}, {Pkg: "qx", Spec: xSpec, HasEx: true, Ex: e1}}
+	if mode == 1 {
+		rootReqs = append(rootReqs, req{Pkg: "qy", Spec: "==1.0"})
+	}
+	if r.Intn(2) == 0 {
+		rootReqs[0], rootReqs[1] = rootReqs[1], rootReqs[0]
+	}
+	if len(u.Pkgs) > 0 && r.Intn(2) == 0 {
+		p := u.Pkgs[r.Intn(len(u.Pkgs))]
+		rootReqs = append(rootReqs, req{Pkg: p.Name})
+	}
+	qa := pkg{Name: "qa"}
+	for i := 0; i < nA; i++ {
+		v := ver{V: fmt.Sprintf("%d.0", i+1)}
+		if i >= nA-nBad {
+			leak := req{Pkg: "qx", HasEx: true, Ex: pick(r, e2, e2, e2+","+e1)}
+			var bad req
+			switch mode {
+			case 0:
+				bad = req{Pkg: "qy", Spec: "==9.0"}
+			case 1:
+				bad = req{Pkg: "qy", Spec: pick(r, "==2.0", ">1.0")}
+			default:
+				bad = req{Pkg: "qb"}
+			}
+			v.Reqs = []req{leak, bad}
+			if r.Intn(3) == 0 {
+				v.Reqs = []req{leak, {Pkg: "qw"}, bad}
+			}
+		} else if r.Intn(3) == 0 {
+			v.Reqs = []req{{Pkg: "qw"}}
+		}
+		qa.Vers = append(qa.Vers, v)
+	}
+	qx := pkg{Name: "qx", Vers: []ver{{V: "1.0", Reqs: []req{
+		{Pkg: "qz", HasEnv: true, Env: marker(e2)},
+		{Pkg: "qw", HasEnv: true, Env: marker(e1)},
+	}}}}
+	if r.Intn(3) == 0 {
+		qx.Vers = append(qx.Vers, ver{V: "0.5", Reqs: []req{{Pkg: "qz", HasEnv: true, Env: marker(e2)}}})
+	}
+	u.Pkgs = append(u.Pkgs,
+		pkg{Name: "qroot", Vers: []ver{{V: "1.0", Reqs: rootReqs}}}, qa, qx,
+		pkg{Name: "qy", Vers: []ver{{V: "1.0"}, {V: "2.0"}}},
+		pkg{Name: "qz", Vers: []ver{{V: "1.0"}}},
+		pkg{Name: "qw", Vers: []ver{{V: "1.0"}}})
+	switch mode {
+	case 2:
+		// qb is pinned after the bad qa and has no workable version
+		u.Pkgs = append(u.Pkgs, pkg{Name: "qb", Vers: []ver{{V: "1.0", Reqs: []req{{Pkg: "qy", Spec: "==9.0"}}}}})
+	case 3:
+		// qb pins fine, its dependency qc cannot: two states are discarded
+		u.Pkgs = append(u.Pkgs,
+			pkg{Name: "qb", Vers: []ver{{V: "1.0", Reqs: []req{{Pkg: "qc"}}}}},
+			pkg{Name: "qc", Vers: []ver{{V: "1.0", Reqs: []req{{Pkg: "qy", Spec: "==9.0"}}}, {V: "2.0", Reqs: []req{{Pkg: "qa", Spec: "<1.0"}}}}})
+	}
 }
 
 // tiny small-scope universes: every assignment over a tiny alphabet, enumerated by index.
@@ -478,6 +557,7 @@ func run(c *fw.Ctx) {
 		}
 		o.route = r.Intn(25) == 0
 		o.late = r.Intn(25) == 0
+		o.leak = r.Intn(12) == 0
 		u := genUniverse(r, o)
 		var all [][2]string
 		for _, p := range u.Pkgs {
@@ -492,7 +572,16 @@ func run(c *fw.Ctx) {
 		if len(all) > 3 {
 			all = all[:3]
 		}
+		if o.leak {
+			all = append([][2]string{{"qroot", "1.0"}}, all...)
+			if len(all) > 3 {
+				all = all[:3]
+			}
+		}
 		tag := "random"
+		if o.leak {
+			tag = "random-leak-gadget"
+		}
 		if o.malformed {
 			tag = "random-malformed"
 		}
